@@ -17,6 +17,7 @@ AXIOMS_ALLOWED = []
 MODEL_NEEDS_IMPL = True      # the driver also runs the extracted trace monitors on the implementation's trace
 LEVEL = "proof"
 TIMEOUT = 1500
+QUICK_TIMEOUT = 150
 REQUIRED_THEOREMS = ["C09_bounded_exit_run_condition_false_running", "C09_bounded_exit_not_running_refuted", "C09_query_answers",
                      "C09_preboot_valuations_reachable", "C09_exit_only_by_teardown_or_condition", "C09_no_step_before_run", "C09_epochs", "C09_reset_honoured", "C09_reboot_waits_for_run",
                      "C09_teardown_one_step", "C09_exited_quiescent", "C09_bounded_exit",
